@@ -117,6 +117,10 @@ func recordX(l statLine, sample func() interface{}) {
 		l.S = sample()
 	}
 	b, _ := json.Marshal(l)
+	// only whole lines go to the file in one write: the fuzz stage has several worker processes appending to it
+	if statsW.Buffered() > 0 && statsW.Available() < len(b)+1 {
+		statsW.Flush()
+	}
 	statsW.Write(b)
 	statsW.WriteByte('\n')
 }
